@@ -2,16 +2,21 @@
 (***************************************************************************)
 (* Common-type methods of Split (lena/core/split.py: _fill, _compute,      *)
 (* _request, __call__) and lena/flow/zip.py Zip (_fill, _compute,          *)
-(* _request, _yield).                                                      *)
+(* _request, _reset, _yield, fields).                                      *)
 (*                                                                         *)
 (* All branches have one kind:                                             *)
 (*   "fc"  branch b collects values; compute yields ms[b] results          *)
 (*         Tag(b,"c",<<i>> \o filled)                                      *)
 (*   "fr"  request yields ms[b] results Tag(b,"r",<<i>> \o filled since    *)
 (*         the previous request)                                           *)
-(*   "src" call yields Tag(b,"s",<<1>>), Tag(b,"s",<<2>>)                  *)
+(*   "src" call yields Tag(b,"s",<<1>>), .., Tag(b,"s",<<ms[b]>>)          *)
+(* and are handed over in one form (SplitSem.tla): bare elements, one-     *)
+(* element tuples or explicit FillComputeSeq / FillRequestSeq objects.     *)
 (* The machine fills branch by branch (one action per seq.fill), like the  *)
 (* loops in the code; the properties compare with the documented meaning.  *)
+(* The methods may be called in any order the type allows: fill after      *)
+(* compute continues to collect (compute does not reset), request and      *)
+(* Zip.reset start a new collection.                                       *)
 (***************************************************************************)
 EXTENDS SplitSem
 
@@ -19,16 +24,22 @@ CONSTANTS MaxBr, MaxN, MaxM
 
 VARIABLES kind, nb, ms,      \* scenario: common kind, number of branches, results per branch
           zip,               \* TRUE: the branches are wrapped in Zip, FALSE: in Split
+          form,              \* how the branches are given: "el" | "tup" | "obj"
+          zipf,              \* Zip(fields=..): "none" | "list" | "str"  (results are namedtuples)
           k,                 \* next value to fill
           cur,               \* branch being filled with value k (0: between fills)
-          col,               \* per branch: values collected (since last request for fr)
-          hist,              \* operations so far: <<"f", v>> | <<"c">> | <<"r">> | <<"call">>
+          col,               \* per branch: values collected (since last request / reset for fr)
+          hist,              \* operations so far: <<"f", v>> | <<"c">> | <<"r">> | <<"x">> (reset) | <<"call">>
           outs               \* results of each compute / request / call
-vars == <<kind, nb, ms, zip, k, cur, col, hist, outs>>
+scn == <<kind, nb, ms, zip, form, zipf>>
+vars == <<kind, nb, ms, zip, form, zipf, k, cur, col, hist, outs>>
 
 Init == /\ kind \in {"fc", "fr", "src"} /\ nb \in 1..MaxBr
         /\ ms \in [1..nb -> 0..MaxM] /\ zip \in BOOLEAN
-        /\ (kind = "src" => ~zip /\ ms = [b \in 1..nb |-> 2])
+        /\ form \in {"el", "tup", "obj"} /\ zipf \in {"none", "list", "str"}
+        /\ (kind = "src" => ~zip /\ form = "el")
+        /\ (form # "el" => nb <= 2 /\ zipf = "none")
+        /\ (zipf # "none" => zip /\ nb <= 2)
         /\ k = 0 /\ cur = 0 /\ col = [b \in 1..nb |-> <<>>] /\ hist = <<>> /\ outs = <<>>
 
 Results(b, tag, filled) == [i \in 1..ms[b] |-> Tag(b, tag, <<i>> \o filled)]
@@ -38,27 +49,32 @@ MinM == CHOOSE m \in {ms[b] : b \in 1..nb} : \A b \in 1..nb : m <= ms[b]
 ZipRes(tag, c) == [i \in 1..MinM |-> [b \in 1..nb |-> Tag(b, tag, <<i>> \o c[b])]]
 
 \* compute() and __call__() may be repeated on the same object (twice here): same meaning each time
-NTerm == Cardinality({j \in 1..Len(hist) : hist[j][1] \in {"c", "call"}})
+NOps(S) == Cardinality({j \in 1..Len(hist) : hist[j][1] \in S})
+NTerm == NOps({"c", "call"})
 Terminated == NTerm >= 2
-StartFill == /\ kind # "src" /\ cur = 0 /\ k < MaxN /\ NTerm = 0
-             /\ cur' = 1 /\ UNCHANGED <<kind, nb, ms, zip, k, col, hist, outs>>
+StartFill == /\ kind # "src" /\ cur = 0 /\ k < MaxN /\ ~Terminated
+             /\ cur' = 1 /\ UNCHANGED <<scn, k, col, hist, outs>>
 FillOne == /\ cur \in 1..nb /\ col' = [col EXCEPT ![cur] = Append(@, k)]
            /\ IF cur = nb THEN cur' = 0 /\ k' = k + 1 /\ hist' = Append(hist, <<"f", k>>)
               ELSE cur' = cur + 1 /\ UNCHANGED <<k, hist>>
-           /\ UNCHANGED <<kind, nb, ms, zip, outs>>
+           /\ UNCHANGED <<scn, outs>>
 Compute == /\ kind = "fc" /\ cur = 0 /\ ~Terminated
            /\ outs' = Append(outs, IF zip THEN [z |-> ZipRes("c", col)] ELSE [s |-> ConcatRes(1, "c", col)])
-           /\ hist' = Append(hist, <<"c">>) /\ UNCHANGED <<kind, nb, ms, zip, k, cur, col>>
+           /\ hist' = Append(hist, <<"c">>) /\ UNCHANGED <<scn, k, cur, col>>
 Request == /\ kind = "fr" /\ cur = 0 /\ Len(outs) < 3
            /\ outs' = Append(outs, IF zip THEN [z |-> ZipRes("r", col)] ELSE [s |-> ConcatRes(1, "r", col)])
            /\ col' = [b \in 1..nb |-> <<>>]
-           /\ hist' = Append(hist, <<"r">>) /\ UNCHANGED <<kind, nb, ms, zip, k, cur>>
+           /\ hist' = Append(hist, <<"r">>) /\ UNCHANGED <<scn, k, cur>>
+\* Zip of fill/request branches offers reset(): every branch is reset
+ResetZ == /\ kind = "fr" /\ zip /\ cur = 0 /\ NOps({"x"}) = 0 /\ k > 0 /\ Len(outs) < 3
+          /\ col' = [b \in 1..nb |-> <<>>]
+          /\ hist' = Append(hist, <<"x">>) /\ UNCHANGED <<scn, k, cur, outs>>
 RECURSIVE SrcAll(_)
-SrcAll(b) == IF b > nb THEN <<>> ELSE SrcOut(b) \o SrcAll(b + 1)
+SrcAll(b) == IF b > nb THEN <<>> ELSE SrcOutK(b, WithM(Src, ms[b])) \o SrcAll(b + 1)
 Call == /\ kind = "src" /\ ~Terminated
         /\ outs' = Append(outs, [s |-> SrcAll(1)]) /\ hist' = Append(hist, <<"call">>)
-        /\ UNCHANGED <<kind, nb, ms, zip, k, cur, col>>
-Next == StartFill \/ FillOne \/ Compute \/ Request \/ Call
+        /\ UNCHANGED <<scn, k, cur, col>>
+Next == StartFill \/ FillOne \/ Compute \/ Request \/ ResetZ \/ Call
 Spec == Init /\ [][Next]_vars
 
 (***************************************************************************)
@@ -69,21 +85,26 @@ EvenlyFilled == cur = 0 => \A a, b \in 1..nb : col[a] = col[b]
 \* fill;...;compute means what run means: with one result per branch, and the index dropped,
 \* the compute results are the fill/compute results of Split.run on the filled flow
 Strip(o) == [j \in 1..Len(o) |-> [o[j] EXCEPT !.p = Tail(@)]]
+FillsBefore(j) == Cardinality({i \in 1..j : hist[i][1] = "f"})
+ComputeAt(n) == CHOOSE j \in 1..Len(hist) : hist[j][1] = "c" /\ Cardinality({i \in 1..j : hist[i][1] = "c"}) = n
 SameAsRun ==
-  (kind = "fc" /\ ~zip /\ NTerm >= 1 /\ \A b \in 1..nb : ms[b] = 1) =>
-     Strip(outs[1].s) = SplitSem([b \in 1..nb |-> FC(None)], None, Iota(k))
+  (kind = "fc" /\ ~zip /\ cur = 0 /\ \A b \in 1..nb : ms[b] = 1) =>
+     \A n \in 1..Len(outs) :
+        Strip(outs[n].s) = SplitSem([b \in 1..nb |-> FC(None)], None, Iota(FillsBefore(ComputeAt(n))))
 \* Zip: the i-th tuple holds the i-th result of every branch; length of the shortest
 ZipTuples == \A j \in 1..Len(outs) : zip =>
    /\ Len(outs[j].z) = MinM
    /\ \A i \in 1..Len(outs[j].z) : \A b \in 1..nb : outs[j].z[i][b].b = b /\ outs[j].z[i][b].p[1] = i
-\* request: every filled value is reported exactly once by each branch that yields
+\* request: every filled value is reported exactly once by each branch that yields (no reset in between)
 RECURSIVE CatFirst(_, _, _)
 CatFirst(os, b, j) == IF j > Len(os) THEN <<>>
    ELSE LET rs == Proj(os[j].s, b) IN (IF rs = <<>> THEN <<>> ELSE Tail(rs[1].p)) \o CatFirst(os, b, j + 1)
 RequestAccounts == (kind = "fr" /\ ~zip /\ cur = 0) =>
    \A b \in 1..nb : ms[b] > 0 => CatFirst(outs, b, 1) \o col[b] = Iota(k)
-\* repeating compute() / __call__() on the same object gives the same results
-Repeatable == NTerm = 2 => outs[Len(outs)] = outs[Len(outs) - 1]
+\* repeating compute() / __call__() on the same object without a fill in between gives the same results
+Repeatable == (NTerm = 2 /\ hist[Len(hist)][1] \in {"c", "call"} /\ hist[Len(hist) - 1][1] \in {"c", "call"})
+                 => outs[Len(outs)] = outs[Len(outs) - 1]
 Terminal == cur = 0 /\ (Terminated \/ (kind = "fr" /\ (Len(outs) = 3 \/ k = MaxN)))
-Emitted == Terminal => PrintT(ToJson([kind |-> kind, nb |-> nb, ms |-> ms, zip |-> zip, hist |-> hist, outs |-> outs]))
+Emitted == Terminal => PrintT(ToJson([kind |-> kind, nb |-> nb, ms |-> ms, zip |-> zip, form |-> form, zipf |-> zipf,
+                                      hist |-> hist, outs |-> outs]))
 =============================================================================
